@@ -413,7 +413,73 @@ func c13Hex(c *Ctx) {
 	})
 	c.R.Check(rule, "base-16", c.P.Pos(exact.Pos()), base16, "hex digits must be parsed in base 16")
 	c.R.Check(rule, "value-width", c.P.Pos(exact.Pos()), wide, "the parse of up to four hex digits must use a constant bit size that holds 0xFFFF (a signed parse of exactly 4*digits bits rejects every escape with the top bit set)")
-	c.R.Floor(rule, 6)
+	// the digit loop stops after exactly the requested number of digits: the loop test compares the number of digits
+	// collected so far with the requested count strictly (`collected < count`); `<=` takes one digit more, and the
+	// character after `\x41` becomes part of the escape
+	seen := map[*ssa.Function]bool{}
+	var digitLoops int
+	var visit func(g *ssa.Function, depth int)
+	visit = func(g *ssa.Function, depth int) {
+		if g == nil || seen[g] || depth > 3 || len(g.Blocks) == 0 {
+			return
+		}
+		seen[g] = true
+		for _, l := range naturalLoops(g) {
+			for b := range l.Body {
+				for _, in := range b.Instrs {
+					bo, ok := in.(*ssa.BinOp)
+					if !ok {
+						continue
+					}
+					isLen := func(v ssa.Value) bool {
+						call, isC := v.(*ssa.Call)
+						if !isC {
+							return false
+						}
+						if isBuiltinCall(call, "len") {
+							return true
+						}
+						cal := calleeOf(call)
+						return cal != nil && (cal.String() == "(*strings.Builder).Len" || cal.String() == "(*bytes.Buffer).Len")
+					}
+					fromCount := func(v ssa.Value) bool {
+						for _, rt := range plainOrigins.Roots(v) {
+							if rt.Kind == "param" && len(rt.Path) == 0 && isIntType(rt.V.Type()) && rt.V.Parent() == g {
+								return true
+							}
+						}
+						return false
+					}
+					op := bo.Op
+					switch {
+					case isLen(bo.X) && fromCount(bo.Y):
+					case isLen(bo.Y) && fromCount(bo.X):
+						op = map[token.Token]token.Token{token.LSS: token.GTR, token.GTR: token.LSS, token.LEQ: token.GEQ, token.GEQ: token.LEQ}[op]
+					default:
+						continue
+					}
+					if op != token.LSS && op != token.GEQ && op != token.LEQ && op != token.GTR {
+						continue
+					}
+					digitLoops++
+					// `collected < count` continues, `collected >= count` stops
+					c.R.Check(rule, fmt.Sprintf("digit-count:%s#%d", c.P.FuncKey(g), digitLoops), c.P.InstrPos(bo), op == token.LSS || op == token.GEQ, "the hex digit loop must stop once the requested number of digits has been collected (collected < count); this test lets it take one digit more, so `\\x41b` reads three digits")
+				}
+			}
+		}
+		instrs(g, func(b *ssa.BasicBlock, i int, in ssa.Instruction) {
+			if call, ok := in.(ssa.CallInstruction); ok {
+				if cal := calleeOf(call); cal != nil && c.inModule(cal) && !c.scannerDiagFns()[cal] {
+					visit(cal, depth+1)
+				}
+			}
+		})
+	}
+	visit(exact, 0)
+	if digitLoops == 0 {
+		c.R.Undecided(rule, "digit-count", c.P.Pos(exact.Pos()), "no loop test of the number of collected digits against the requested count found")
+	}
+	c.R.Floor(rule, 7)
 }
 
 // stringScanner: the scanner method with two rune decodes whose loop compares the second with the first (the quote).
